@@ -35,7 +35,7 @@ class Harness(cm.BaseB):
     def cases(self, chunk):
         L = chunk["L"]
         if L == 0:
-            for kind in ("list", "array1d", "array2d"):
+            for kind in ("list", "array1d", "array2d", "array2d-R0", "tuple"):
                 for n in (0, 1, 3):
                     yield {"L": 0, "kind": kind, "n": n}
             return
@@ -50,7 +50,7 @@ class Harness(cm.BaseB):
         if isinstance(n, dict):
             n = None
         if L == 0:
-            arg = [] if kind == "list" else np.array([]) if kind == "array1d" else np.zeros((0, 3), dtype=str)
+            arg = {"list": [], "tuple": (), "array1d": np.array([]), "array2d": np.zeros((0, 3), dtype=str), "array2d-R0": np.zeros((8, 0), dtype="<U3")}[kind]
             try:
                 r = rt.get_trough_wells(n, arg)
             except Exception as e:
@@ -86,6 +86,16 @@ class Harness(cm.BaseB):
         if not valid:
             return "invalid:accepted", None, [("C19/invalid-n-accepted", f"n={n!r} {kind} len {L} -> {r!r}")]
         V = []
+        if isinstance(r, list) and n > 0:
+            # the caller reverses / empties the list it got; an identical later request is unaffected
+            first = list(r)
+            r.reverse()
+            r.append("Z99")
+            del r[: max(1, len(r) // 2)]
+            r2 = rt.get_trough_wells(n, arg)
+            if [str(x) for x in r2] != [str(x) for x in first]:
+                V.append(("C19/order", f"n={n} {kind} len {L}: after the caller edited the returned list the same request gives {list(r2)[:8]}... instead of {first[:8]}..."))
+            r = first
         if not isinstance(r, list):
             V.append(("C19/not-a-list", f"returned {type(r).__name__}"))
         if len(r) != n:
